@@ -191,7 +191,10 @@ class PoolEngine(HistEngine):
            "round-robin on/off; nil config) of resolver updates (changing/empty address lists, nil/wrong-type config), resolver errors, "
            "state reports for pool/unknown/replacement connections (all five states), picks on current and superseded pickers "
            "(plain/BIND/BOUND/UNBIND, good and bad key paths, 0-2 keys, with/without interceptor context, deadlines, cancelled), "
-           "completions in any order (ok/error/client deadline/server deadline), clock advances, factory failures, cancellations; "
+           "completions in any order (ok/error/client deadline/server deadline), clock advances, factory failures, cancellations, "
+           "weighted directed scenarios (refresh by deadline, bind-then-use, saturation, gate/park/resume, stale stand-in) and one large-pool "
+           "history (256-300 connections); thorough tier adds every operation sequence of depth 4 over a small state-dependent alphabet "
+           "after a fixed prelude for 3 configurations; "
            "distinct by hash of the operation list; ")
     props = {}
 
@@ -232,7 +235,7 @@ _POOL_REL_ALL = {"ret", "newsc", "addr", "publish", "unblocked", "cfg", "counter
 
 def _pool_prop(mon, rel, nontriv, rule, n_quick="3000", n_thorough="150000"):
     return dict(monitor=mon, rel=rel, quick=dict(VERIF_N=n_quick, VERIF_MAXOPS="40"),
-                thorough=dict(VERIF_N=n_thorough, VERIF_MAXOPS="60"),
+                thorough=dict(VERIF_N=n_thorough, VERIF_MAXOPS="60", VERIF_ENUM_DEPTH="4"),
                 nontrivial=pool_nontrivial(nontriv), rule=PoolEngine.GEN + rule)
 
 
